@@ -215,15 +215,18 @@ where
 
     #[inline(always)]
     pub fn read_at(&self, index: usize, reader: &Reader) -> Result<T> {
-        let len = self.base.len();
-        if likely(index < len) {
-            Ok(self.unchecked_read_at(index, reader))
-        } else {
-            Err(Error::IndexTooHigh {
+        let stored_len = self.stored_len();
+        if likely(index < stored_len) {
+            return Ok(self.unchecked_read_at(index, reader));
+        }
+        // Not stored yet: buffered values come from the push buffer, never from the file.
+        match self.base.pushed().get(index - stored_len) {
+            Some(value) => Ok(value.clone()),
+            None => Err(Error::IndexTooHigh {
                 index,
-                len,
+                len: self.base.len(),
                 name: self.name().to_string(),
-            })
+            }),
         }
     }
 
